@@ -36,6 +36,9 @@ pub struct Ledger {
     pub lib_drops: u64,
     /// cids of plain-data values (no destructor)
     pub plain: std::collections::HashSet<u32>,
+    /// `Default`-created instances alive at the moment (by filler id)
+    pub fillers: std::collections::HashSet<u32>,
+    pub next_filler: u32,
 }
 
 static LEDGER: Mutex<Option<Ledger>> = Mutex::new(None);
@@ -111,6 +114,43 @@ pub fn settle_plain() {
             }
         }
     });
+}
+
+/// a `Default` instance was created (by the library or by the harness): it gets an identity of its own
+pub fn filler_created() -> u32 {
+    with(|l| {
+        l.next_filler += 1;
+        let f = l.next_filler;
+        l.fillers.insert(f);
+        f
+    })
+}
+
+/// a `Default` instance is destroyed: a library-side drop like any other (it can be the one an injected
+/// panic hits); destroying the same instance twice is an anomaly
+pub fn filler_dropped(fid: u32) {
+    let harness = HARNESS_DROP.with(|h| h.get());
+    let do_panic = with(|l| {
+        if !l.fillers.remove(&fid) && fid <= l.next_filler {
+            if l.anomalies.len() < 64 {
+                l.anomalies.push(format!("default-created value #{} dropped again", fid));
+            }
+        }
+        if !harness {
+            l.lib_drops += 1;
+            if l.panic_in > 0 {
+                l.panic_in -= 1;
+                if l.panic_in == 0 && !std::thread::panicking() {
+                    l.panicked.push(0);
+                    return true;
+                }
+            }
+        }
+        false
+    });
+    if do_panic {
+        panic!("VERIF-INJECTED destructor panic (default-created value #{})", fid);
+    }
 }
 
 pub fn zcreated() {
